@@ -430,7 +430,7 @@ func directed(r *runner, rng *rand.Rand, n int) {
 			add(fmt.Sprintf("pl %s %s %s 3 0 %s 0 0 %s 1 %s:0", hx(k), hx(a.s), hx(a.f), w.b(50), w.b(20), hx(k)))
 			add(fmt.Sprintf("cm %s %s %s", hx(k), hx(a.s), hx(a.c)))
 			add(fmt.Sprintf("get %s %s -", hx(k), hx(maxTS)))
-		case 6: // b69a3a6: a repeated optimistic prewrite of an Insert / CheckNotExists over the own lock answers ok
+		case 6: // a799b8b: a repeated optimistic prewrite of an Insert / CheckNotExists over the own lock answers ok
 			class = "insert-twice"
 			maybeNoise()
 			op := []string{"I", "I", "C"}[rng.Intn(3)]
